@@ -35,7 +35,7 @@ func checkC03(c *Ctx, r *Report) {
 	}
 	protoVerifyHashed(r, p)
 	protoDecoders(r, p)
-	r.Floor("protocol_paths", 12)
+	r.Floor("protocol_paths", 5)
 }
 
 // checkPredicateDefs: the inventory accepts guards spelled through repository predicates (IsInfinity, IsZero); their own
